@@ -64,6 +64,7 @@ var probes = map[string]bool{
 	"connPool.doRPC":                true,
 	"storage.removeGTE":             true,
 	"storage.clearLog":              true,
+	"replication.runLoop":           true,
 	"Raft.setCommitIndex":           true,
 	"follower.onTimeout":            true,
 	"connPool.returnConn":           true,
